@@ -67,7 +67,7 @@ DIVISIONS: Dict[Tuple[str, str, str], str] = {
     ("rp2.gain_loss", "GainLoss.acquired_lot_fiat_amount_with_fee_fraction", "self.acquired_lot.crypto_balance_change"): "GainLoss.__init__ demands 0 < crypto_amount <= lot.crypto_in; guarded by 'if not self.acquired_lot'",
     ("rp2.gain_loss", "GainLoss.acquired_lot_fraction_percentage", "self.acquired_lot.crypto_balance_change"): "as above",
     ("rp2.gain_loss", "GainLoss.fiat_cost_basis", "self.acquired_lot.crypto_balance_change"): "as above",
-    ("rp2.computed_data", "ComputedData._compute_price_per_unit", "crypto_in_running_sum"): "InputData rejects an empty in-set and crypto_in is validated positive (non-zero) except for STAKING: the sum is zero only if staking losses cancel every acquisition up to the to-date",
+    ("rp2.computed_data", "ComputedData._compute_price_per_unit", "crypto_in_running_sum"): "GUARDED: the sum stays the initial ZERO when the to-date precedes the first acquisition (the loop breaks at once), so the quotient must be under a test of the divisor itself; otherwise crypto_in is validated positive (non-zero) except for STAKING",
     ("rp2.plugin.report.open_positions", "Generator.generate", "total_crypto_balance"): "sum of the strictly positive balances collected for the asset (at least one: see asset_crypto_balance_holder[asset])",
     ("rp2.plugin.report.open_positions", "Generator.generate", "total_cost_basis"): "reached only inside the loop over asset_cost_bases, which is non-empty only after a strictly positive cost basis was added to total_cost_basis",
 }
@@ -92,7 +92,7 @@ def run(rep: Report, tier: str) -> None:
         fi = prog.func(mod, qual)
         comps = [c for c in c10._window_comparisons(m, fi) if c[2] == "to"]
         if not comps:
-            rep.violation(rf, mod, qual, f"{qual}: to-date applied on the entry's calendar date", f"{qual} no longer compares the entry's timestamp.date() with the to-date: the report generators iterate rows that were never numbered (KeyError in get_taxable_event_fraction) or the reverse", loc(fi.node))
+            c10.missing_bound(rep, rf, m, fi, "to", f"{qual}: to-date applied on the entry's calendar date", "the report generators iterate rows that were never numbered (KeyError in get_taxable_event_fraction) or the reverse")
         for c in comps:
             c10._judge(rep, rf, m, fi, c)
     rg = rep.rule("C16.g", "default options are accepted: -m defaults to 'not given'; conflict check unchanged", floor=2)
@@ -220,6 +220,43 @@ def _check_lookups(rep: Report, m) -> None:
         rep.check(not missing, rb, modname, "_TYPE_TO_SHEET", f"{cc}: type->sheet table is total over the types a taxable event can carry", f"{cc.upper()} tax report: no sheet for {missing}: KeyError for any input containing such a row", loc(prog.module_assigns[modname]["_SHEET_TO_TYPES"]))
 
 
+def _governing_tests(node: ast.AST):
+    """[(test, polarity)] of the if statements / conditional expressions that decide whether ``node`` is evaluated (inside its function)."""
+    from ..loader import parent
+
+    out = []
+    prev, cur = node, parent(node)
+    while cur is not None and not isinstance(cur, (ast.FunctionDef, ast.AsyncFunctionDef)):
+        if isinstance(cur, ast.IfExp) and prev is not cur.test:
+            out.append((cur.test, prev is cur.body))
+        elif isinstance(cur, ast.If) and prev is not cur.test:
+            out.append((cur.test, prev in cur.body))
+        prev, cur = cur, parent(cur)
+    return out
+
+
+def _tests_divisor(test: ast.AST, divisor: str, polarity: bool) -> bool:
+    """The test establishes 'divisor is non-zero' on the side the division is on: divisor != / > / is not ZERO (true side), == / is ZERO (false side), bare truthiness."""
+    zero = ("ZERO", "_ZERO", "0", "RP2Decimal('0')", "Decimal('0')")
+    if isinstance(test, ast.BoolOp) and isinstance(test.op, ast.And) and polarity:
+        return any(_tests_divisor(v, divisor, True) for v in test.values)
+    if isinstance(test, ast.UnaryOp) and isinstance(test.op, ast.Not):
+        return _tests_divisor(test.operand, divisor, not polarity)
+    if isinstance(test, ast.Name):
+        return polarity and test.id == divisor
+    if isinstance(test, ast.Compare) and len(test.ops) == 1:
+        a, b, op = unparse(test.left), unparse(test.comparators[0]), test.ops[0]
+        if b == divisor and a in zero:
+            a, b = b, a
+            op = {ast.Gt: ast.Lt(), ast.Lt: ast.Gt(), ast.GtE: ast.LtE(), ast.LtE: ast.GtE()}.get(type(op), op)
+        if a != divisor or b not in zero:
+            return False
+        if polarity:
+            return isinstance(op, (ast.NotEq, ast.IsNot, ast.Gt))
+        return isinstance(op, (ast.Eq, ast.Is, ast.LtE))
+    return False
+
+
 def _check_divisions(rep: Report, m) -> None:
     prog = m.prog
     rc = rep.rule("C16.c", "divisions: every division with a decimal operand has a reviewed non-zero divisor; identity tests on decimals are not guards", floor=8)
@@ -239,14 +276,24 @@ def _check_divisions(rep: Report, m) -> None:
                     continue
                 key = (mod.name, _qual(node), unparse(node.right))
                 if key in DIVISIONS:
+                    if DIVISIONS[key].startswith("GUARDED"):
+                        tests = _governing_tests(node)
+                        dv = unparse(node.right)
+                        guards = [t for t, pol in tests if _tests_divisor(t, dv, pol)]
+                        rep.check(
+                            bool(guards),
+                            rc,
+                            key[0],
+                            key[1],
+                            f"{key[0]}:{key[1]}: / {key[2][:50]} is under a non-zero test of the divisor",
+                            f"{short(node, 100)} is governed by {[short(t, 60) for t, _ in tests] or 'no condition'}, none of which tests the divisor '{dv}' against zero: for the inputs/options named in the reviewed reason "
+                            f"({DIVISIONS[key][9:120]}...) the divisor is zero and the run dies with decimal.InvalidOperation / ZeroDivisionError instead of writing its reports",
+                            loc(node),
+                        )
+                        continue
                     rep.ok(rc, f"{key[0]}:{key[1]}: / {key[2][:50]}", DIVISIONS[key])
                 else:
                     rep.violation(rc, key[0], key[1], f"/ {key[2]}", f"{short(node, 100)} divides by {key[2]}, which is not in the reviewed table of non-zero divisors: a zero here is an internal ZeroDivision error instead of a report", loc(node))
-    # 'x is not ZERO' style identity tests on computed decimals guard nothing
-    for mod in prog.package.modules.values():
-        for node in ast.walk(mod.tree):
-            if isinstance(node, ast.Compare) and len(node.ops) == 1 and isinstance(node.ops[0], (ast.Is, ast.IsNot)) and unparse(node.comparators[0]) in ("ZERO", "_ZERO"):
-                rep.note(f"{mod.name}:{_qual(node)}: '{short(node, 60)}' is an identity test on a computed decimal (always 'is not ZERO' after any arithmetic): it does not guard the division it governs; see the reviewed reason for that divisor")
 
 
 def _check_option_rejections(rep: Report, m) -> None:
